@@ -25,10 +25,10 @@ theorem C03_eventually_complete (ns nt : Nat) (acts : List Act)
     (henv : EnvOK Cfg.cur (State.init ns nt) acts) (hnf : NoFaults acts)
     (s : SId) (H : Int) (hnt : 0 < nt)
     (hact : ((run Cfg.cur (State.init ns nt) acts).src s).active = true)
-    (hreg : ∀ t, t < nt → ((run Cfg.cur (State.init ns nt) acts).tgt t).registered = true)
+    (hst : ∀ t, t < nt → ((run Cfg.cur (State.init ns nt) acts).tgt t).started = true)
     (hH : RecvOK nt ((run Cfg.cur (State.init ns nt) acts).src s) [] H) :
     ∃ fuel, ((fairRound Cfg.cur fuel s H (fairRound Cfg.cur fuel s H (run Cfg.cur (State.init ns nt) acts))).src s).acksSent.getLast? = some H :=
-  eventually_complete_cur ns nt acts henv hnf s H hnt hact hreg hH
+  eventually_complete_cur ns nt acts henv hnf s H hnt hact hst hH
 
 /-- non-vacuity / illustration: a slow target with a message still in hand, a silent target that never
     got a task, a batch still pending — two rounds bring the source's ack to its final watermark 30. -/
